@@ -144,6 +144,7 @@ def snapshot(root, extra_roots=()):
     nodes = {}
     ids = {}
     order = {}
+    refs = []       # keeps every visited object alive as long as the snapshot: ids stay unambiguous
 
     def visit(v):
         t = type(v)
@@ -154,6 +155,7 @@ def snapshot(root, extra_roots=()):
             return ['n', order[key]]
         nid = order[key] = len(order)
         ids[nid] = key
+        refs.append(v)
         tn = t.__name__
         if isinstance(v, dict):
             content = [[visit(k), visit(x)] for k, x in _dict_items(v)]
@@ -202,7 +204,7 @@ def snapshot(root, extra_roots=()):
 
     r = visit(root)
     xs = [visit(x) for x in extra_roots]
-    return {'root': r, 'extra': xs, 'nodes': nodes, 'ids': ids}
+    return {'root': r, 'extra': xs, 'nodes': nodes, 'ids': ids, '_refs': refs}
 
 
 def _slots_of(cls):
@@ -244,11 +246,17 @@ def snap_diff(a, b):
     return out[:6]
 
 
+_SNAP_KEEP = []
+
+
 def snapshot_by_id(root):
     """{id(container): [type name, content]} with children referenced by id (identity-stable
     encoding: inserting or removing a subtree does not renumber the other nodes)"""
     snap = snapshot(root)
     ids = snap['ids']
+    _SNAP_KEEP.append(snap['_refs'])
+    if len(_SNAP_KEEP) > 64:
+        del _SNAP_KEEP[:32]
 
     def enc(c):
         if isinstance(c, list):
